@@ -299,6 +299,9 @@ def r07_7(ctx):
 
 
 def run(ctx):
+    ctx.rule("R07.8", "the parser maps the serializer's replacements back: a named reference ending in ';' is decoded in text and in attribute values whatever follows it (shared with R14.6)")
+    from .C14 import semicolon_rule
+    ctx.guard("R07.8", "semicolon", lambda: semicolon_rule(ctx, "R07.8"))
     ctx.rule("R07.7", "the serializer treats exactly the standard's void-like elements (HTML namespace) as childless")
     ctx.guard("R07.7", "void", lambda: r07_7(ctx))
     ctx.rule("R07.1", "escape table sound and reversible: needles >= {&,<} (text) / {&,\"} (attr); every needle has a replacement the parser maps back")
